@@ -49,8 +49,8 @@ PickW(ws) == LET s == Expand(ws) IN s[Pick(1..Len(s))]
 Ctx0 == [rd |-> {"g0", "g1"}, wr |-> {"g0", "g1"}, loc |-> {}, defd |-> {}, labs |-> <<>>, incase |-> FALSE, pure |-> FALSE,
          fcall |-> TRUE, clos |-> {}, fs |-> FALSE, ret |-> "none", rvar |-> FALSE, dfr |-> FALSE, top |-> FALSE,
          litidx |-> FALSE, ptrs |-> {}, sls |-> {}, maps |-> {}, strs |-> {}, gotos |-> <<>>,
-         sts |-> {"t"}, qs |-> {}, bools |-> {}, consts |-> {}, clos1 |-> {},
-         outer |-> [rd |-> {}, clos |-> {}, ptrs |-> {}, sls |-> {}, maps |-> {}, strs |-> {}, sts |-> {}, qs |-> {}, bools |-> {}, clos1 |-> {}], d |-> 2]
+         sts |-> {"t"}, qs |-> {}, bools |-> {}, consts |-> {}, clos1 |-> {}, ifs |-> {}, fvs |-> {}, chs |-> {},
+         outer |-> [rd |-> {}, clos |-> {}, ptrs |-> {}, sls |-> {}, maps |-> {}, strs |-> {}, sts |-> {}, qs |-> {}, bools |-> {}, clos1 |-> {}, ifs |-> {}, fvs |-> {}, chs |-> {}], d |-> 2]
 
 RECURSIVE GenE(_, _), GenC(_, _), GenS(_), GenB(_, _), GenLitBody(_), GenDeferBody(_)
 
@@ -67,7 +67,8 @@ GenLeaf(c) ==
                       <<IF c.sls # {} THEN 2 ELSE 0, "sl">>, <<IF c.maps # {} THEN 2 ELSE 0, "mget">>,
                       <<IF c.maps # {} THEN 1 ELSE 0, "mlen">>, <<IF c.strs # {} THEN 1 ELSE 0, "slen">>,
                       <<IF c.sts # {"t"} THEN 3 ELSE 0, "ufld">>, <<IF c.qs # {} THEN 2 ELSE 0, "qfld">>, <<1, "usum">>,
-                      <<IF c.consts # {} THEN 2 ELSE 0, "cvar">> >>) IN
+                      <<IF c.consts # {} THEN 2 ELSE 0, "cvar">>, <<IF c.chs # {} THEN 1 ELSE 0, "chlen">>,
+                      <<IF c.sls # {} THEN 1 ELSE 0, "vspread">> >>) IN
     CASE k = "lit" -> Lit(Pick(0..5))
       [] k = "mget"  -> [k |-> "mget", s |-> Pick(c.maps), i |-> GenKey(c)]
       [] k = "mlen"  -> [k |-> "mlen", s |-> Pick(c.maps)]
@@ -76,6 +77,8 @@ GenLeaf(c) ==
       [] k = "usum"  -> IF c.qs # {} /\ Pick(1..3) = 1 THEN [k |-> "usum", via |-> "ptr", s |-> Pick(c.qs)]
                         ELSE [k |-> "usum", via |-> "val", s |-> Pick(c.sts)]
       [] k = "cvar"  -> LET kc == Pick(c.consts) IN [k |-> "cvar", x |-> kc[1], v |-> kc[2]]
+      [] k = "chlen" -> [k |-> "chlen", s |-> Pick(c.chs)]
+      [] k = "vspread" -> [k |-> "vspread", s |-> Pick(c.sls)]
       [] k = "slen"  -> [k |-> "slen", s |-> Pick(c.strs)]
       [] k = "deref" -> [k |-> "deref", p |-> Pick(c.ptrs)]
       [] k = "sl"    -> [k |-> "sl", s |-> Pick(c.sls), ix |-> Pick(0..2)]
@@ -86,10 +89,13 @@ GenLeaf(c) ==
 \* pure expression
 GenE(d, c) ==
     IF d = 0 THEN GenLeaf(c) ELSE
-    LET k == PickW(<< <<4, "leaf">>, <<4, "bin">>, <<IF c.pure THEN 0 ELSE 2, "call">> >>) IN
+    LET k == PickW(<< <<4, "leaf">>, <<4, "bin">>, <<IF c.pure THEN 0 ELSE 2, "call">>, <<1, "vcall">>,
+                      <<IF c.fvs # {} /\ ~c.pure THEN 2 ELSE 0, "fvcall">> >>) IN
     CASE k = "leaf" -> GenLeaf(c)
       [] k = "bin"  -> Bin(Pick({"add", "sub", "mul"}), GenE(d - 1, c), GenE(d - 1, c))
       [] k = "call" -> CallE("g", GenE(d - 1, c))
+      [] k = "vcall" -> [k |-> "vcall", args |-> [i \in 1..Pick(0..3) |-> GenE(d - 1, c)]]
+      [] k = "fvcall" -> [k |-> "fvcall", h |-> Pick(c.fvs), args |-> <<GenE(d - 1, c)>>]
 
 \* the one effectful call of a call-carrying statement
 HasCall(c) == ~c.pure /\ (c.fcall \/ c.clos # {})
@@ -129,13 +135,21 @@ FreeSls(c)   == {"s1", "s2"} \ (c.defd \cup c.sls)
 \* the names visible where the outermost enclosing loop begins (kept while inside nested loops)
 Snap(c) == IF c.labs # <<>> THEN c.outer
            ELSE [rd |-> c.rd, clos |-> c.clos, ptrs |-> c.ptrs, sls |-> c.sls, maps |-> c.maps, strs |-> c.strs,
-                 sts |-> c.sts, qs |-> c.qs, bools |-> c.bools, clos1 |-> c.clos1]
+                 sts |-> c.sts, qs |-> c.qs, bools |-> c.bools, clos1 |-> c.clos1, ifs |-> c.ifs, fvs |-> c.fvs, chs |-> c.chs]
 FreeMaps(c)  == {"m1", "m2"} \ (c.defd \cup c.maps)
 FreeStrs(c)  == {"w1", "w2"} \ (c.defd \cup c.strs)
 FreeSts(c)   == {"u1", "u2"} \ (c.defd \cup c.sts)
 FreeQs(c)    == {"q1", "q2"} \ (c.defd \cup c.qs)
 FreeBools(c) == {"b1", "b2"} \ (c.defd \cup c.bools)
 FreeConsts(c) == {"k1", "k2"} \ (c.defd \cup {kc[1] : kc \in c.consts})
+FreeIfs(c)   == {"e1", "e2"} \ (c.defd \cup c.ifs)
+FreeFvs(c)   == {"h1", "h2"} \ (c.defd \cup c.fvs)
+FreeChs(c)   == {"ch1", "ch2"} \ (c.defd \cup c.chs)
+\* what an interface variable is given: [form, e, src, from]
+GenIface(c) ==
+    LET f == PickW(<< <<3, "int">>, <<2, "str">>, <<2, "T">>, <<1, "nil">> >>) IN
+    [form |-> f, e |-> IF f = "int" THEN GenE(1, c) ELSE Lit(0), src |-> IF f = "str" THEN GenStr(c) ELSE RandStr(1),
+     from |-> IF f = "T" THEN Pick(c.sts) ELSE "t"]
 Inner(c)     == [c EXCEPT !.defd = {}, !.d = c.d - 1]
 
 \* body of a function literal of type func() int: its locals are its own
@@ -152,7 +166,8 @@ GenDeferBody(c) ==
         c0 == IF cut THEN [c EXCEPT !.rd = @ \cap c.outer.rd, !.wr = @ \cap c.outer.rd, !.clos = @ \cap c.outer.clos,
                                     !.ptrs = @ \cap c.outer.ptrs, !.sls = @ \cap c.outer.sls, !.maps = @ \cap c.outer.maps,
                                     !.strs = @ \cap c.outer.strs, !.sts = @ \cap (c.outer.sts \cup {"t"}), !.qs = @ \cap c.outer.qs,
-                                    !.bools = @ \cap c.outer.bools, !.clos1 = @ \cap c.outer.clos1]
+                                    !.bools = @ \cap c.outer.bools, !.clos1 = @ \cap c.outer.clos1,
+                                    !.ifs = @ \cap c.outer.ifs, !.fvs = @ \cap c.outer.fvs, !.chs = @ \cap c.outer.chs]
               ELSE c
         c1 == [Inner(c0) EXCEPT !.ret = "bare", !.labs = <<>>, !.gotos = <<>>, !.dfr = TRUE, !.loc = {}, !.top = FALSE]
         rec == IF Pick(1..3) # 1 THEN << [k |-> "recover", how |-> PickW(<< <<4, "direct">>, <<1, "helper">> >>),
@@ -161,7 +176,8 @@ GenDeferBody(c) ==
         dd  == {pre[i].x : i \in {j \in 1..Len(pre) : pre[j].k \in {"def", "gloop"}}} \cup {pre[i].c : i \in {j \in 1..Len(pre) : pre[j].k = "mkclo"}}
                \cup {pre[i].p : i \in {j \in 1..Len(pre) : pre[j].k \in {"mkptr", "mkpu"}}}
                \cup {pre[i].x : i \in {j \in 1..Len(pre) : pre[j].k = "cdef"}}
-               \cup {pre[i].s : i \in {j \in 1..Len(pre) : pre[j].k \in {"mksl", "slshare", "mkmap", "mshare", "sdef", "ssub", "umk", "bdef"}}}
+               \cup {pre[i].s : i \in {j \in 1..Len(pre) : pre[j].k \in {"mksl", "slshare", "mkmap", "mshare", "sdef", "ssub", "umk", "bdef", "imk", "mkfv", "mkch"}}}
+               \cup {pre[i].c : i \in {j \in 1..Len(pre) : pre[j].k = "mkgen"}}
         post == IF Pick(1..4) = 1 THEN << [k |-> "panic", e |-> Lit(Pick(6..9))] >>
                 ELSE GenB(Pick(0..1), [c1 EXCEPT !.defd = dd])
     IN pre \o rec \o post
@@ -203,6 +219,16 @@ Kinds(c) ==
           <<IF c.qs # {} THEN 4 * eff ELSE 0, "qfset">>, <<IF c.qs # {} THEN 2 * eff ELSE 0, "qcopy">>,
           <<IF FreeBools(c) # {} THEN 2 ELSE 0, "bdef">>, <<IF c.bools # {} THEN 3 ELSE 0, "basg">>,
           <<IF FreeConsts(c) # {} THEN 1 ELSE 0, "cdef">>,
+          <<eff, "asgidx">>, <<IF c.sls # {} THEN 2 ELSE 0, "slswap">>,
+          <<IF FreeFvs(c) # {} /\ ~c.pure THEN 1 ELSE 0, "mkfv">>,
+          <<IF FreeClos(c) # {} /\ ~c.pure THEN 1 ELSE 0, "mkgen">>,
+          <<IF FreeIfs(c) # {} /\ ~c.pure THEN 2 ELSE 0, "imk">>, <<IF c.ifs # {} THEN 3 * eff ELSE 0, "iasg">>,
+          <<IF c.ifs # {} THEN 4 * eff ELSE 0, "tysw">>, <<IF c.ifs # {} THEN 3 * eff ELSE 0, "tyas">>,
+          <<IF c.ifs # {} THEN eff ELSE 0, "tyas1">>,
+          <<IF FreeChs(c) # {} /\ ~c.pure THEN 1 ELSE 0, "mkch">>,
+          <<IF c.chs # {} THEN 3 * eff ELSE 0, "chsend">>, <<IF c.chs # {} THEN 2 * eff ELSE 0, "chtrysend">>,
+          <<IF c.chs # {} THEN 2 * eff ELSE 0, "chrecv">>, <<IF c.chs # {} THEN 3 * eff ELSE 0, "chtry">>,
+          <<IF c.chs # {} THEN eff ELSE 0, "chclose">>, <<IF c.chs # {} THEN eff ELSE 0, "chrange">>,
           <<IF deep /\ Len(c.gotos) < 3 THEN 1 ELSE 0, "gscope">>, <<IF c.gotos # <<>> THEN 4 ELSE 0, "goto">>,
           <<IF deep /\ FreeNames(c) # {} THEN 1 ELSE 0, "gloop">>,
           <<IF deep THEN 2 ELSE 0, "while">>,
@@ -269,6 +295,37 @@ GenS(c) ==
                                                     !.loc = @ \cup {v, vv}, !.labs = Append(@, lab), !.outer = Snap(c)]
                         IN S([k |-> k, s |-> IF k = "rngsl" THEN Pick(c.sls) ELSE "", v |-> v, vv |-> vv, lab |-> lab,
                               body |-> GenB(Pick(1..3), c1)])
+      [] k = "asgidx" -> S([k |-> "asgidx", x |-> Pick(c.wr), form |-> Pick({"xfirst", "afirst"}), a |-> GenE(1, c), b |-> GenE(1, c)])
+      [] k = "slswap" -> LET lo == Pick(0..1) IN S([k |-> "slswap", s |-> Pick(c.sls), lo |-> lo, hi |-> Pick((lo + 1)..2)])
+      [] k = "mkfv"  -> LET n == Pick(FreeFvs(c)) IN
+                        [s |-> [k |-> "mkfv", s |-> n, form |-> Pick({"g", "pick"})], c |-> [c EXCEPT !.fvs = @ \cup {n}, !.defd = @ \cup {n}]]
+      [] k = "mkgen" -> LET n == Pick(FreeClos(c)) IN
+                        [s |-> [k |-> "mkgen", c |-> n, e |-> GenE(1, c)], c |-> [c EXCEPT !.clos = @ \cup {n}, !.defd = @ \cup {n}]]
+      [] k = "imk"   -> LET n == Pick(FreeIfs(c))
+                            v == GenIface(c)
+                        IN [s |-> [k |-> "imk", s |-> n, form |-> v.form, e |-> v.e, src |-> v.src, from |-> v.from],
+                            c |-> [c EXCEPT !.ifs = @ \cup {n}, !.defd = @ \cup {n}]]
+      [] k = "iasg"  -> LET v == GenIface(c) IN
+                        S([k |-> "iasg", s |-> Pick(c.ifs), form |-> v.form, e |-> v.e, src |-> v.src, from |-> v.from])
+      [] k = "tysw"  -> LET all == <<"int", "str", "T", "nil">>
+                            keep == {i \in 1..4 : Pick(1..3) # 1}
+                            RECURSIVE Sel(_)
+                            Sel(i) == IF i > 4 THEN <<>> ELSE (IF i \in keep THEN <<all[i]>> ELSE <<>>) \o Sel(i + 1)
+                            cs == Sel(1)
+                            \* int and string may share one clause (the variable then keeps the interface type)
+                            multi == IF {1, 2} \subseteq keep /\ Pick(1..3) = 1 THEN {"int", "str"} ELSE {}
+                        IN S([k |-> "tysw", id |-> Pick(100..99999), s |-> Pick(c.ifs), tys |-> cs, multi |-> multi,
+                              bind |-> Pick({TRUE, FALSE}), rot |-> Pick(0..3)])
+      [] k = "tyas"  -> S([k |-> "tyas", id |-> Pick(100..99999), s |-> Pick(c.ifs), ty |-> Pick({"int", "str", "T"})])
+      [] k = "tyas1" -> S([k |-> "tyas1", s |-> Pick(c.ifs), x |-> Pick(c.wr)])
+      [] k = "mkch"  -> LET n == Pick(FreeChs(c)) IN
+                        [s |-> [k |-> "mkch", s |-> n], c |-> [c EXCEPT !.chs = @ \cup {n}, !.defd = @ \cup {n}]]
+      [] k = "chsend" -> S([k |-> "chsend", s |-> Pick(c.chs), e |-> GenE(1, c)])
+      [] k = "chtrysend" -> S([k |-> "chtrysend", id |-> Pick(100..99999), s |-> Pick(c.chs), e |-> GenE(1, c)])
+      [] k = "chrecv" -> S([k |-> "chrecv", id |-> Pick(100..99999), s |-> Pick(c.chs)])
+      [] k = "chtry" -> S([k |-> "chtry", id |-> Pick(100..99999), s |-> Pick(c.chs)])
+      [] k = "chclose" -> S([k |-> "chclose", s |-> Pick(c.chs)])
+      [] k = "chrange" -> S([k |-> "chrange", id |-> Pick(100..99999), s |-> Pick(c.chs)])
       [] k = "cdef"  -> LET n == Pick(FreeConsts(c))
                             v == Pick(0..5)
                         IN [s |-> [k |-> "cdef", x |-> n, v |-> v], c |-> [c EXCEPT !.consts = @ \cup {<<n, v>>}, !.defd = @ \cup {n}]]
@@ -393,7 +450,7 @@ GenB(n, c) ==
     IF h.s.k \in {"brk", "cont", "ret", "panic", "fault", "goto"} THEN <<h.s>>
     \* a statement that introduces a map, slice, string or pointer is followed by at least three more,
     \* so that the new variable gets used (the weights of Kinds favour its uses once it is in scope)
-    ELSE LET rest == IF h.s.k \in {"mkmap", "mksl", "sdef", "mkptr", "umk", "mkpu", "bdef"} /\ n - 1 < 3 THEN 3 ELSE n - 1
+    ELSE LET rest == IF h.s.k \in {"mkmap", "mksl", "sdef", "mkptr", "umk", "mkpu", "bdef", "imk", "mkch", "mkfv", "mkgen"} /\ n - 1 < 3 THEN 3 ELSE n - 1
          IN <<h.s>> \o GenB(rest, h.c)
 
 \* a random program: g (pure, plain result), f (named result r, effects, may call g and
